@@ -125,12 +125,18 @@ def probe_tail(events, svcs, interleave=False):
         tails.append(tail)
         tag = "%x_%x" % (i, ser)
         # every client gets its own texts, so that data leaking from one client into another's lines is visible
-        tail.append({"e": "P", "id": i, "shape": "ok", "modes": ["+", "x"], "cred": ["pt%x" % i, 10],
-                     "raw": ["P+xpt%x" % i, 0]})
-        tail.append({"e": "H", "id": i})
-        for s in svcs:
-            tail.append({"e": "X", "svc": s["name"], "tag": tag, "kind": "OKA", "acct": ["ac%x" % i, 8], "text": ["t1", 9],
-                         "trail": ""})
+        # three styles, chosen by the length of the behaviour: a password first (re-queries every login-type service),
+        # no password at all (what is outstanding stays exactly as the behaviour left it), replies before the hurry-up
+        style = len(events) % 3
+        pw = {"e": "P", "id": i, "shape": "ok", "modes": ["+", "x"], "cred": ["pt%x" % i, 10], "raw": ["P+xpt%x" % i, 0]}
+        oks = [{"e": "X", "svc": s["name"], "tag": tag, "kind": "OKA", "acct": ["ac%x" % i, 8], "text": ["t1", 9], "trail": ""}
+               for s in svcs]
+        if style == 0:
+            tail += [pw, {"e": "H", "id": i}] + oks
+        elif style == 1:
+            tail += [{"e": "H", "id": i}] + oks
+        else:
+            tail += oks + [{"e": "H", "id": i}] + [dict(x) for x in oks]
         tail.append({"e": "TO", "id": i})
         tail.append({"e": "n", "id": i, "nick": ["n%x" % i, 5]})
     if interleave:
